@@ -18,7 +18,26 @@ func supplierLabel(s Scenario, log *Log, prov string) (l Label, isInput bool, ba
 	switch prov {
 	case "":
 		return Label{}, false, "fabricated zero value"
-	case "<nil>", "<invalid>", "<nilstruct>", "<missing>":
+	case "<nil>":
+		// a nil interface value is a genuine value when a supplied converter that returns
+		// nil for its interface-typed outputs has run
+		for _, c := range s.Convs {
+			if !c.NilIface {
+				continue
+			}
+			for _, inv := range log.Inv {
+				if inv.Func != c.ID {
+					continue
+				}
+				for _, o := range c.Out {
+					if o.T == TI || o.T == TI2 {
+						return o, false, ""
+					}
+				}
+			}
+		}
+		return Label{}, false, "missing value <nil>"
+	case "<invalid>", "<nilstruct>", "<missing>":
 		return Label{}, false, "missing value " + prov
 	}
 	for _, in := range s.Inputs {
